@@ -24,6 +24,11 @@ NH == Cardinality({i \in DOMAIN Trace : Trace[i].k = "reset"})
 VARIABLES l, pend, clean, hno, gwire, gprod, pval
 tvars == <<l, pend, clean, hno, gwire, gprod, pval>>
 
+\* slice-valued parameter 3: v = tag*10 + length, element i is tag*100 + i
+RECURSIVE VecJoin(_, _, _)
+VecJoin(tag, i, n) == IF i > n THEN "" ELSE ToString(tag * 100 + i) \o (IF i < n THEN ";" ELSE "") \o VecJoin(tag, i + 1, n)
+VecTerm(v) == "c[" \o VecJoin(v \div 10, 1, v % 10) \o "]"
+
 NoPend == [op |-> "none", p |-> 0, v |-> 0, lin |-> FALSE, res |-> ""]
 MaxC == 8
 
@@ -58,9 +63,10 @@ Lin(c) ==
        \/ /\ o.op = "upd" /\ pval' = [pval EXCEPT ![o.p] = o.v]
           /\ pend' = [pend EXCEPT ![c].lin = TRUE, ![c].res = "ok"]
        \/ /\ o.op = "get" /\ UNCHANGED pval
-          /\ pend' = [pend EXCEPT ![c].lin = TRUE, ![c].res = ParamTerm(o.p, pval[o.p])]
+          /\ pend' = [pend EXCEPT ![c].lin = TRUE, ![c].res = IF o.p = 3 THEN VecTerm(pval[3]) ELSE ParamTerm(o.p, pval[o.p])]
        \/ /\ o.op = "art" /\ UNCHANGED pval
-          /\ pend' = [pend EXCEPT ![c].lin = TRUE, ![c].res = Term(gwire, pval, gprod[o.p])]
+          /\ pend' = [pend EXCEPT ![c].lin = TRUE,
+                                   ![c].res = IF o.p = 3 THEN VecTerm(pval[3]) ELSE Term(gwire, pval, gprod[o.p])]
     /\ UNCHANGED <<l, clean, hno, gwire, gprod>>
 
 TResp ==
